@@ -486,6 +486,9 @@ def check(C: Ctx, claim, timeout_ms=60000, extra=(), inputs=None, with_uf=True, 
             s = s2
     dt = time.time() - t
     C.solver_time += dt
+    global LAST_ASSERTIONS
+    # the assertion set that decided the query (for the second solver: the same subset, not the whole context)
+    LAST_ASSERTIONS = list(s.assertions()) if (s is not None and r in ("sat", "unsat")) else None
     mdl = None
     if r == "sat" and inputs:
         m = s.model()
@@ -504,9 +507,18 @@ def to_smt2(cons, neg_claim):
     return s.to_smt2()
 
 
-def second_opinion(cons, neg_claim, timeout_s=60):
-    """/usr/bin/z3 4.8.12 on the SMT-LIB2 text of the same query."""
-    txt = to_smt2(cons, neg_claim)
+LAST_ASSERTIONS = None
+
+
+def second_opinion(cons, neg_claim, timeout_s=60, assertions=None):
+    """/usr/bin/z3 4.8.12 on the SMT-LIB2 text of the same query (`assertions`: the deciding subset incl. the
+    negated claim, when the primary verdict came from a subset)."""
+    if assertions is not None:
+        s_ = z3.Solver()
+        s_.add(*assertions)
+        txt = s_.to_smt2()
+    else:
+        txt = to_smt2(cons, neg_claim)
     txt = txt.replace("(check-sat)", "(check-sat-using qfnra-nlsat)")
     try:
         p = subprocess.run(["/usr/bin/z3", "-in", f"-T:{int(timeout_s)}"], input=txt, capture_output=True, text=True, timeout=timeout_s + 10)
